@@ -367,7 +367,7 @@ pub fn generate(kind: &str, seed: u64, run: u64, thorough: bool) -> Scenario {
                         match class {
                             0 => MVal::Int(*dr.pick(&[-1i64, 0, 1, 3, 127, 128, 40000, i64::MIN, i64::MAX])),
                             1 => MVal::UInt(*dr.pick(&[0u64, 1, 3, 255, 256, 70000, u64::MAX, i64::MAX as u64 + 1])),
-                            2 => MVal::float(*dr.pick(&[0.0, 1.5, -2.5, 3.0, 0.1, 1e300, f64::NAN])),
+                            2 => MVal::float(*dr.pick(&[0.0, 1.5, -2.5, 3.0, 0.1, 1e300, f64::NAN, 0.10000000149011612, 16.700000762939453, 0.30000001192092896, 0.5])),
                             3 => MVal::Bool(dr.chance(1, 2)),
                             _ => MVal::Str((*dr.pick(&["foo", "bar", "", "1", "true", "Foo"])).to_owned()),
                         }
@@ -402,6 +402,29 @@ pub fn generate(kind: &str, seed: u64, run: u64, thorough: bool) -> Scenario {
                         if !f.iter().any(|(kk, _)| *kk == k) {
                             f.push((k, MVal::Str((*dr.pick(&["foo", "bar", "1", "foobar", "x"])).to_owned())));
                         }
+                    }
+                }
+            }
+        }
+    }
+    // a key spelled "<<" is a key like any other (no representation may treat it as a merge)
+    if kind == "backends" {
+        let ks = gen::key_set(&yaml);
+        let schema = gen::derive_schema(&yaml);
+        let roots: Vec<&String> = ks.root_keys.iter().filter(|k| !k.contains('.') && !k.contains('[')).collect();
+        if !roots.is_empty() {
+            for d in docs.iter_mut() {
+                if dr.chance(1, 6) {
+                    if let MVal::Obj(f) = d {
+                        let k = (*dr.pick(&roots)).clone();
+                        let v = schema
+                            .children
+                            .iter()
+                            .find(|(ck, _)| *ck == k)
+                            .and_then(|(_, n)| n.cores.first().cloned())
+                            .unwrap_or(MVal::Str("foo".into()));
+                        f.retain(|(kk, _)| *kk != k && kk != "<<");
+                        f.push(("<<".to_owned(), MVal::Obj(vec![(k, v)])));
                     }
                 }
             }
